@@ -269,6 +269,8 @@ struct Est<T> {
     _t: std::marker::PhantomData<T>,
     fold: usize,
     fit_ids: BTreeSet<usize>,
+    /// the rows the model was fitted on, as handed over (a resampling splitter repeats rows)
+    fit_list: Vec<usize>,
     hist: Rc<RefCell<Hist>>,
     predict_calls: RefCell<u8>,
     fail_predict: Option<u8>,
@@ -297,7 +299,7 @@ impl<T: RealNumber> Predictor<DenseMatrix<T>, Vec<T>> for Est<T> {
         let overlap = idset.intersection(&self.fit_ids).count();
         if overlap > 0 {
             let is_train_pass =
-                self.allow_train_predict && idset == self.fit_ids && ids.len() == self.fit_ids.len();
+                self.allow_train_predict && ids == self.fit_list;
             if !is_train_pass {
                 h.bad(
                     "leak",
@@ -386,7 +388,8 @@ fn fit_party<T: RealNumber>(
         Ok(Est {
             _t: std::marker::PhantomData,
             fold,
-            fit_ids: idx.into_iter().collect(),
+            fit_ids: idx.iter().copied().collect(),
+            fit_list: idx,
             hist: hist.clone(),
             predict_calls: RefCell::new(0),
             fail_predict,
@@ -1240,7 +1243,23 @@ impl Property for C16 {
                                 continue;
                             }
                             let lo = test[0];
-                            let mut train: Vec<usize> = match r.below(3) {
+                            let style = r.below(4);
+                            let mut train: Vec<usize> = match style {
+                                3 => {
+                                    // resampled with replacement from the rows that are not held out (bootstrap / oversampling
+                                    // splitters): an index list with repeats, often sorted
+                                    let pool: Vec<usize> = (0..n).filter(|i| !test.contains(i)).collect();
+                                    if pool.is_empty() {
+                                        vec![]
+                                    } else {
+                                        let m = r.usize_in(2, 2 * n);
+                                        let mut t: Vec<usize> = (0..m).map(|_| pool[r.below(pool.len() as u64) as usize]).collect();
+                                        if r.chance(0.7) {
+                                            t.sort_unstable();
+                                        }
+                                        t
+                                    }
+                                }
                                 0 => (0..lo).collect(),                                                     // expanding window
                                 1 => (0..n).filter(|i| !test.contains(i) && r.chance(0.6)).collect(),       // sub-sampled
                                 _ => (0..n).filter(|i| !test.contains(i) && (*i + 1 < lo || *i > test[test.len() - 1] + 1)).collect(), // embargo
@@ -1255,7 +1274,7 @@ impl Property for C16 {
                             if r.chance(0.5) {
                                 r.shuffle(&mut test);
                             }
-                            if r.chance(0.5) {
+                            if style != 3 && r.chance(0.5) {
                                 r.shuffle(&mut train);
                             }
                             folds.push((train, test));
